@@ -8,6 +8,7 @@ argument has at most `M` tokens.
 import ChibiVerif.Model.PP
 import ChibiVerif.Lemmas.PPLemmas
 import ChibiVerif.Lemmas.PPTerm
+import ChibiVerif.Lemmas.C09Skip
 
 namespace ChibiVerif.PP
 
@@ -56,6 +57,12 @@ theorem len_key {o a a' b b' M : Nat} (hb : b' ≤ b) (ha : a' ≤ a + M) (ho : 
 theorem drop_cons_length {α : Type} {l r : List α} {x : α} {k : Nat} (h : l.drop k = x :: r) : r.length + 1 ≤ l.length := by
   have := congrArg List.length h
   simp only [List.length_drop, List.length_cons] at this
+  omega
+
+theorem drop_cons_skip {args : List MacroArg} {l r : List Tok} {x : Tok} {k : Nat} (h : l.drop k = x :: r) :
+    (skipEmptyOperands args x r).2.length + 1 ≤ l.length := by
+  have h1 := drop_cons_length h
+  have h2 := skipEmptyOperands_length args r x
   omega
 
 section
@@ -120,12 +127,14 @@ theorem substLoop_len (hW : W ≤ M) (hM : 1 ≤ M) :
       -- 7-9: a parameter before `##`
       · obtain ⟨h1, h2, h3, h4⟩ := ih _ _ _ _ _ _ _ _ hI hQ hA h
         have hd := drop_cons_length ‹List.drop 1 rest = _ :: _›
+        have hsk := drop_cons_skip (args := args) ‹List.drop 1 rest = _ :: _›
         refine ⟨h1, h2, h3, len_key (by omega) ?_ h4⟩
         have := hmA.1
         simp only [List.length_append, List.length_reverse]
         omega
       · obtain ⟨h1, h2, h3, h4⟩ := ih _ _ _ _ _ _ _ _ hI hQ hA h
         have hd := drop_cons_length ‹List.drop 1 rest = _ :: _›
+        have hsk := drop_cons_skip (args := args) ‹List.drop 1 rest = _ :: _›
         refine ⟨h1, h2, h3, len_key (by omega) ?_ h4⟩
         simp only [List.length_cons]
         omega
@@ -202,8 +211,10 @@ theorem substLoop_nofuel (hW : W ≤ M) (hM : 1 ≤ M) :
       · exact ih _ _ _ _ _ (by simp only [List.length_cons] at hlen; omega) hI hQ hA h
       -- 9-11: a parameter before `##`
       · have hd := drop_cons_length ‹List.drop 1 rest = _ :: _›
+        have hsk := drop_cons_skip (args := args) ‹List.drop 1 rest = _ :: _›
         exact ih _ _ _ _ _ (by omega) hI hQ hA h
       · have hd := drop_cons_length ‹List.drop 1 rest = _ :: _›
+        have hsk := drop_cons_skip (args := args) ‹List.drop 1 rest = _ :: _›
         exact ih _ _ _ _ _ (by omega) hI hQ hA h
       · exact ih _ _ _ _ _ (by omega) hI hQ hA h
       -- 12-14: a parameter, pre-expanded
